@@ -260,6 +260,7 @@ def declaration(x):
 # ---------------------------------------------------------------------------
 # C20.preempt: one preemption at line granularity
 
+import copy as _copy
 import os as _os
 import sys as _sys
 
@@ -301,6 +302,8 @@ def preempt_ledger():
 
 def _outcome(conn, stmt):
     text, params = stmt
+    if not isinstance(text, str):
+        text = _copy.deepcopy(text)          # a parsed statement: a fresh copy of the tree for every execution
     try:
         cur = conn.cursor()
         cur.execute(text, params)
@@ -375,6 +378,10 @@ def _preempted(stmt_a, stmt_b, k, shared, with_parser):
 
 def _preempt_check(name_a, name_b, shared, with_parser):
     stmt_a, stmt_b = PREEMPT_STATEMENTS[name_a], PREEMPT_STATEMENTS[name_b]
+    if not with_parser:
+        # parsing is not under test here (the generated parser's lines are excluded): parse once, execute copies of the tree
+        stmt_a = (beanquery.parser.parse(stmt_a[0]), stmt_a[1])
+        stmt_b = (beanquery.parser.parse(stmt_b[0]), stmt_b[1])
     serial_a = _outcome(ledger.connect(preempt_ledger(), ledger.default_options()), stmt_a)
     serial_b = _outcome(ledger.connect(preempt_ledger(), ledger.default_options()), stmt_b)
     points, total = _trace_points(stmt_a, with_parser, 2 if _os.environ.get('VERIF_TIER') == 'thorough' else 1)
@@ -405,11 +412,13 @@ def make_preempt(name_a, name_b, with_parser=False, quick=300, thorough=600):
                'multi-switch family)')
     def preempt(shared):
         return native(_preempt_check, name_a, name_b, bool(shared), with_parser)
+    return preempt
 
 
 _QUICK_PREEMPT = [('maxwidth40', 'maxwidth16'), ('balance', 'balance'), ('aggregate', 'params'), ('period', 'balance'),
-                  ('journal', 'balances'), ('transactions2', 'transactions')]
-for _a, _b in _QUICK_PREEMPT + [('maxwidth16', 'distinct'), ('aggregate', 'aggregate'), ('params', 'params2'), ('balances', 'journal')]:
+                  ('transactions2', 'transactions'), ('params', 'params2')]
+# (JOURNAL / BALANCES parse their template during compilation: ~8 minutes of CPU per pair, thorough tier only)
+for _a, _b in _QUICK_PREEMPT + [('maxwidth16', 'distinct'), ('aggregate', 'aggregate'), ('journal', 'balances'), ('balances', 'journal')]:
     make_preempt(_a, _b, quick=300 if (_a, _b) in _QUICK_PREEMPT else None, thorough=900)
 make_preempt('baddate', 'trivial', with_parser=True)
 make_preempt('trivial', 'baddate', with_parser=True)
